@@ -53,6 +53,22 @@ fn int_forms(ints: &[E], bools: &[E], full: bool) -> Vec<E> {
                 "contains".into(),
                 vec![r.clone()],
             ).pipe_bool());
+            // receiver and argument are both calls that log when they run
+            out.push(E::Method(
+                Box::new(E::Host("es".into(), vec![l.clone()])),
+                "contains".into(),
+                vec![E::Host("es".into(), vec![r.clone()])],
+            ).pipe_bool());
+            out.push(E::Call("slen".into(), vec![E::Method(
+                Box::new(E::Host("es".into(), vec![l.clone()])),
+                "append".into(),
+                vec![E::Host("es".into(), vec![r.clone()])],
+            )]));
+            out.push(E::Call("slen".into(), vec![bin(
+                BinOp::Add,
+                E::Host("es".into(), vec![l.clone()]),
+                E::Host("es".into(), vec![r.clone()]),
+            )]));
             // record literal written in non-declared order, both fields read
             out.push(E::Field(
                 Box::new(E::Rec(Some("R".into()), vec![("b".into(), l.clone()), ("a".into(), r.clone())])),
